@@ -139,6 +139,18 @@ func registerIntrinsics(e *Engine) {
 		return fr.w.lastRecovered.site
 	})
 
+	// encoding/json is reflection-driven and cannot be executed symbolically: Encode is an
+	// opaque codec that records the value handed to it (harnesses inspect that value tree).
+	reg("(*encoding/json.Encoder).Encode", func(fr *frame, a []value) value {
+		fr.w.encoded = append(fr.w.encoded, a[1])
+		return iface{}
+	})
+	reg(apiPkg+".Encoded", func(fr *frame, a []value) value {
+		if len(fr.w.encoded) == 0 {
+			return iface{}
+		}
+		return fr.w.encoded[len(fr.w.encoded)-1]
+	})
 	registerBytealg(e)
 	registerStrings(e)
 	registerMisc(e)
@@ -419,6 +431,8 @@ func registerStrings(e *Engine) {
 	conc2("strings.Contains", func(a, b string) value { return strings.Contains(a, b) })
 	conc2("strings.TrimPrefix", func(a, b string) value { return strings.TrimPrefix(a, b) })
 	conc2("strings.TrimSuffix", func(a, b string) value { return strings.TrimSuffix(a, b) })
+	e.intrinsics["internal/stringslite.Clone"] = func(fr *frame, a []value) value { return a[0] }
+	e.intrinsics["strings.Clone"] = func(fr *frame, a []value) value { return a[0] }
 	e.intrinsics["strings.ToLower"] = func(fr *frame, a []value) value {
 		if s, ok := a[0].(string); ok {
 			return strings.ToLower(s)
